@@ -5,9 +5,9 @@ CONSTANT MUT = "none"
 CONSTANT MODE = "corrupt"
 CONSTANT SIDS = {1, 2, 3, 4, 5, 6, 7}
 CONSTANT FREEVALS = {1, 5}
-CONSTANT DELTAS = {1, 2, 8, 16}
+CONSTANT DELTAS = {1, 16}
 CONSTANT VALS = {0, 1, 2}
-CONSTANT ALPHAS = {0, 1, 3, 10}
+CONSTANT ALPHAS = {1, 3}
 CONSTANT IDENTITY = TRUE
 INIT Init
 NEXT Next
